@@ -178,13 +178,8 @@ func TestVerifC19(t *testing.T) {
 		return mc.(c19Case), mf, suffix
 	}
 
-	np := run.N(40000, 800000)
-	run.Cases("fed-provider", np, func(i int, rng *verifkit.Rand) {
-		remote := rng.String(5, c19Alnum)
-		if rng.Chance(1, 6) {
-			remote = rng.PickStr("z1111", "z2222")
-		}
-		c := c19Case{Remote: remote, Toks: c19GenToks(rng, remote, others, 4)}
+	provCase := func(c c19Case, i int, rng *verifkit.Rand) {
+		remote := c.Remote
 		run.Input(c, false)
 		if i < 2 {
 			run.Sample(c)
@@ -242,6 +237,42 @@ func TestVerifC19(t *testing.T) {
 			mc, mf, suffix := minimiseProvider(c, f, rng.Fork())
 			run.Violation(mf.Sig+suffix, fmt.Sprintf("%s; remote=%q; minimal witness: %s", mf.Detail, remote, c19JSON(mc)), mc)
 		}
+	}
+	np := run.N(40000, 800000)
+	run.Cases("fed-provider", np, func(i int, rng *verifkit.Rand) {
+		remote := rng.String(5, c19Alnum)
+		if rng.Chance(1, 6) {
+			remote = rng.PickStr("z1111", "z2222")
+		}
+		provCase(c19Case{Remote: remote, Toks: c19GenToks(rng, remote, others, 4)}, i, rng)
+	})
+	// exhaustively enumerated sub-space: every token kind alone, first and
+	// second next to an ordinary token
+	type pcombo struct {
+		kind string
+		pos  int // 0 alone, 1 first of two, 2 second of two
+	}
+	var pcombos []pcombo
+	for _, k := range c19kit.Kinds {
+		for pos := 0; pos < 3; pos++ {
+			pcombos = append(pcombos, pcombo{k, pos})
+		}
+	}
+	mk := func(rng *verifkit.Rand, kind string, pos int, remote string) []c19kit.Tok {
+		t := c19kit.MakeTok(rng, kind, remote, c19LocalID)
+		o := c19kit.MakeTok(rng, "v2-ordinary", remote, c19LocalID)
+		switch pos {
+		case 1:
+			return []c19kit.Tok{t, o}
+		case 2:
+			return []c19kit.Tok{o, t}
+		}
+		return []c19kit.Tok{t}
+	}
+	run.Cases("fed-provider-matrix", len(pcombos), func(i int, rng *verifkit.Rand) {
+		remote := []string{"z1111", "z2222", "z3333"}[i%3]
+		run.Count("provider_matrix_cases", 1)
+		provCase(c19Case{Remote: remote, Toks: mk(rng, pcombos[i].kind, pcombos[i].pos, remote)}, i+3, rng)
 	})
 	if !run.Replaying() && nForwarded == 0 {
 		run.Inconclusive("C19 fed-provider: the provider refused every context: nothing judged")
@@ -360,10 +391,8 @@ func TestVerifC19(t *testing.T) {
 
 	nConnFwd := 0
 	connMinimised := map[string]int{}
-	nc := run.N(3000, 60000)
-	run.Cases("fed-conn", nc, func(i int, rng *verifkit.Rand) {
-		remote := remoteIDs[rng.Intn(len(remoteIDs))]
-		c := c19Case{Remote: remote, Toks: c19GenToks(rng, remote, clusters, 3), Method: rng.PickStr("CollectionGet", "ContainerGet", "SpecimenGet", "SpecimenUpdate")}
+	connCase := func(c c19Case, i int, rng *verifkit.Rand) {
+		remote := c.Remote
 		run.Input(c, false)
 		if i < 2 {
 			run.Sample(c)
@@ -409,6 +438,29 @@ func TestVerifC19(t *testing.T) {
 			mc, mf, suffix := minimiseConn(c, f, rng.Fork())
 			run.Violation(mf.Sig+suffix, fmt.Sprintf("%s; remote=%q method=%s; minimal witness: %s", mf.Detail, remote, c.Method, c19JSON(mc)), mc)
 		}
+	}
+	nc := run.N(3000, 60000)
+	run.Cases("fed-conn", nc, func(i int, rng *verifkit.Rand) {
+		remote := remoteIDs[rng.Intn(len(remoteIDs))]
+		connCase(c19Case{Remote: remote, Toks: c19GenToks(rng, remote, clusters, 3), Method: rng.PickStr("CollectionGet", "ContainerGet", "SpecimenGet", "SpecimenUpdate")}, i, rng)
+	})
+	type ccombo struct {
+		kind   string
+		pos    int
+		method string
+	}
+	var ccombos []ccombo
+	for _, k := range c19kit.Kinds {
+		for pos := 0; pos < 3; pos++ {
+			for _, m := range []string{"CollectionGet", "ContainerGet", "SpecimenGet", "SpecimenUpdate"} {
+				ccombos = append(ccombos, ccombo{k, pos, m})
+			}
+		}
+	}
+	run.Cases("fed-conn-matrix", len(ccombos), func(i int, rng *verifkit.Rand) {
+		remote := remoteIDs[i%len(remoteIDs)]
+		run.Count("conn_matrix_cases", 1)
+		connCase(c19Case{Remote: remote, Toks: mk(rng, ccombos[i].kind, ccombos[i].pos, remote), Method: ccombos[i].method}, i+3, rng)
 	})
 	if !run.Replaying() && nConnFwd == 0 {
 		run.Inconclusive("C19 fed-conn: no request ever reached a stub remote: nothing observed")
